@@ -154,6 +154,7 @@ type threadKilled struct{}               // thread torn down at path end
 type unsupported struct{ what string }   // construct the engine cannot execute
 type boundExceeded struct{ what string } // unwinding assertion failed
 type initAbort struct{ what string }
+type crashUnwind struct{}              // abrupt process stop: unwinds without running deferred calls
 
 // Path is the state of one execution path.
 type Path struct {
